@@ -100,7 +100,11 @@ func (group *Group) StartRtpPub(req base.ApiCtrlStartRtpPubReq) (ret base.ApiCtr
 	defer group.mutex.Unlock()
 
 	if group.hasInSession() {
-		// TODO(chef): [fix] 处理已经有输入session的情况 202207
+		// 已经有输入session，拒绝，不影响已有的输入
+		Log.Errorf("[%s] in stream already exist at group. start rtp pub refused.", group.UniqueKey)
+		ret.ErrorCode = base.ErrorCodeStartRtpPubFail
+		ret.Desp = base.ErrDupInStream.Error()
+		return
 	}
 
 	if req.DebugDumpPacket != "" {
